@@ -5,8 +5,9 @@ import Supv.Spec.C15
 
 * the loops of `update_state` / `update_status_required` in closed form;
 * `sequenced`: a process is in the start sequence map iff the application is managed;
-* `evaluate` agrees with the compositional denotation `sem` on every formula without an exception-raising or
-  argument-dropping shape (`Strict`), within the stack budget (`depth`), when every pattern compiles;
+* `evaluate` agrees with the compositional denotation `sem` on EVERY formula evaluated within the stack budget
+  (`depth`: nesting of the positions `evaluate` descends into), when every pattern either compiles or raises one of the
+  exception classes `_get_matches` maps to a parse error (`regexMapped`);
 * `update` only reads the rows (displayed state, expected-exit flag, required flag) of the processes.
 -/
 
@@ -185,33 +186,22 @@ theorem statusRequired_eq (managed : Bool) (ps : List P) (st : AState) :
 /-! ### Formulas -/
 
 mutual
+/-- nesting of the positions `evaluate` descends into (the operand of a refused unary operator and the arguments of a
+    refused call are never evaluated) -/
 def depth : Formula → Nat
-  | .call _ args _ => depthMax args + 1
+  | .call .all [a] 0 => depth a + 1
+  | .call .any [a] 0 => depth a + 1
   | .boolOp _ vs => depthMax vs + 1
   | .notOp x => depth x + 1
-  | .unaryOther x => depth x + 1
   | _ => 1
 def depthMax : List Formula → Nat
   | [] => 0
   | f :: t => max (depth f) (depthMax t)
 end
 
-mutual
-def Strict : Formula → Bool
-  | .call .notName _ _ => false
-  | .call .otherName _ _ => true
-  | .call _ [a] 0 => Strict a
-  | .call _ _ _ => false
-  | .boolOp _ vs => StrictAll vs
-  | .notOp x => Strict x
-  | _ => true
-def StrictAll : List Formula → Bool
-  | [] => true
-  | f :: t => Strict f && StrictAll t
-end
-
 theorem depth_pos (f : Formula) : 1 ≤ depth f := by
-  cases f <;> simp [depth]
+  unfold depth
+  split <;> omega
 
 theorem depthMax_le {vs : List Formula} {n : Nat} (h : depthMax vs ≤ n) : ∀ g ∈ vs, depth g ≤ n := by
   induction vs with
@@ -222,16 +212,6 @@ theorem depthMax_le {vs : List Formula} {n : Nat} (h : depthMax vs ≤ n) : ∀ 
     rcases List.mem_cons.mp hg with rfl | hg
     · omega
     · exact ih (by omega) g hg
-
-theorem strictAll_mem {vs : List Formula} (h : StrictAll vs = true) : ∀ g ∈ vs, Strict g = true := by
-  induction vs with
-  | nil => simp
-  | cons f t ih =>
-    simp only [StrictAll, Bool.and_eq_true] at h
-    intro g hg
-    rcases List.mem_cons.mp hg with rfl | hg
-    · exact h.1
-    · exact ih h.2 g hg
 
 def lift : Option Val → Except Err Val
   | some v => .ok v
@@ -282,14 +262,15 @@ theorem upAt_eq (ps : List P) (i : Nat) : App.upAt ps i = Spec.C15.upAt (ps.map 
   | none => rfl
   | some p => rfl
 
-theorem evaluate_eq_sem (L : List Leaf) (ps : List P) (hL : ∀ (k c : Nat), L[k]? ≠ some (Leaf.reError c)) :
-    ∀ (fuel : Nat) (f : Formula), Strict f = true → depth f ≤ fuel →
+theorem evaluate_eq_sem (L : List Leaf) (ps : List P)
+    (hL : ∀ (k c : Nat), L[k]? = some (Leaf.reError c) → regexMapped c = true) :
+    ∀ (fuel : Nat) (f : Formula), depth f ≤ fuel →
       evaluate L ps fuel f = lift (sem L (ps.map rowOf) f) := by
   intro fuel
   induction fuel with
-  | zero => intro f _ hd; have := depth_pos f; omega
+  | zero => intro f hd; have := depth_pos f; omega
   | succ n ih =>
-    intro f hs hd
+    intro f hd
     cases f with
     | str k =>
       simp only [evaluate, evalLeaf, sem]
@@ -298,7 +279,7 @@ theorem evaluate_eq_sem (L : List Leaf) (ps : List P) (hL : ∀ (k c : Nat), L[k
       | some lf =>
         cases lf with
         | exact p => simp [lift, upAt_eq]
-        | reError c => exact absurd hk (hL k c)
+        | reError c => simp [lift, hL k c hk]
         | matching qs =>
           match qs with
           | [] => simp [lift]
@@ -308,17 +289,15 @@ theorem evaluate_eq_sem (L : List Leaf) (ps : List P) (hL : ∀ (k c : Nat), L[k
     | other => simp [evaluate, sem, lift]
     | unaryOther x => simp [evaluate, sem, lift]
     | notOp x =>
-      simp only [Strict] at hs
       simp only [depth] at hd
-      simp only [evaluate, sem, ih x hs (by omega)]
+      simp only [evaluate, sem, ih x (by omega)]
       cases sem L (ps.map rowOf) x with
       | none => simp [lift]
       | some v => cases v <;> simp [lift]
     | boolOp isAnd vs =>
-      simp only [Strict] at hs
       simp only [depth] at hd
       have hev := evalSeq_eq (evaluate L ps n) L (ps.map rowOf) vs
-        (fun g hg => ih g (strictAll_mem hs g hg) (depthMax_le (by omega : depthMax vs ≤ n) g hg))
+        (fun g hg => ih g (depthMax_le (by omega : depthMax vs ≤ n) g hg))
       simp only [evaluate, sem, hev, semBools_eq]
       cases semVals L (ps.map rowOf) vs with
       | none => simp [lift]
@@ -328,60 +307,30 @@ theorem evaluate_eq_sem (L : List Leaf) (ps : List P) (hL : ∀ (k c : Nat), L[k
         · cases isAnd <;> simp [hl, lift, applyFn]
     | call fn args nkw =>
       cases fn with
-      | notName => simp [Strict] at hs
+      | notName => simp [evaluate, sem, lift]
       | otherName => simp [evaluate, sem, lift]
       | all =>
         match args, nkw with
-        | [], _ => simp [Strict] at hs
+        | [], _ => simp [evaluate, sem, lift]
         | [a], 0 =>
-          simp only [Strict] at hs
-          simp only [depth, depthMax] at hd
-          simp only [evaluate, sem, ih a hs (by omega)]
+          simp only [depth] at hd
+          simp only [evaluate, sem, ih a (by omega)]
           cases sem L (ps.map rowOf) a with
           | none => simp [lift]
           | some v => simp [lift, applyFn]
-        | [a], k + 1 => simp [Strict] at hs
-        | a :: b :: r, _ => simp [Strict] at hs
+        | [a], k + 1 => simp [evaluate, sem, lift]
+        | a :: b :: r, _ => simp [evaluate, sem, lift]
       | any =>
         match args, nkw with
-        | [], _ => simp [Strict] at hs
+        | [], _ => simp [evaluate, sem, lift]
         | [a], 0 =>
-          simp only [Strict] at hs
-          simp only [depth, depthMax] at hd
-          simp only [evaluate, sem, ih a hs (by omega)]
+          simp only [depth] at hd
+          simp only [evaluate, sem, ih a (by omega)]
           cases sem L (ps.map rowOf) a with
           | none => simp [lift]
           | some v => simp [lift, applyFn]
-        | [a], k + 1 => simp [Strict] at hs
-        | a :: b :: r, _ => simp [Strict] at hs
-
-/-! ### Grammar, strictness, denotation -/
-
-mutual
-theorem wf_strict : ∀ (f : Formula), wf f = true → Strict f = true
-  | .str _, _ => by simp [Strict]
-  | .const, h => by simp [wf] at h
-  | .other, h => by simp [wf] at h
-  | .unaryOther _, h => by simp [wf] at h
-  | .notOp x, h => by simp only [wf] at h; simp only [Strict]; exact wf_strict x h
-  | .boolOp _ vs, h => by simp only [wf] at h; simp only [Strict]; exact wfAll_strictAll vs h
-  | .call .notName _ _, h => by simp [wf] at h
-  | .call .otherName _ _, h => by simp [wf] at h
-  | .call .all [] _, h => by simp [wf] at h
-  | .call .all [a] (0), h => by simp only [wf] at h; simp only [Strict]; exact wf_strict a h
-  | .call .all [_] (_ + 1), h => by simp [wf] at h
-  | .call .all (_ :: _ :: _) _, h => by simp [wf] at h
-  | .call .any [] _, h => by simp [wf] at h
-  | .call .any [a] (0), h => by simp only [wf] at h; simp only [Strict]; exact wf_strict a h
-  | .call .any [_] (_ + 1), h => by simp [wf] at h
-  | .call .any (_ :: _ :: _) _, h => by simp [wf] at h
-theorem wfAll_strictAll : ∀ (vs : List Formula), wfAll vs = true → StrictAll vs = true
-  | [], _ => by simp [StrictAll]
-  | f :: t, h => by
-    simp only [wfAll, Bool.and_eq_true] at h
-    simp only [StrictAll, Bool.and_eq_true]
-    exact ⟨wf_strict f h.1, wfAll_strictAll t h.2⟩
-end
+        | [a], k + 1 => simp [evaluate, sem, lift]
+        | a :: b :: r, _ => simp [evaluate, sem, lift]
 
 mutual
 theorem sem_some_wf (L : List Leaf) (rows : List Row) : ∀ (f : Formula) (v : Val), sem L rows f = some v → wf f = true
@@ -443,15 +392,94 @@ theorem majorOfFormula_not_wf (L : List Leaf) (rows : List Row) (f : Formula) (h
   | none => rfl
   | some v => rw [sem_some_wf L rows f v hs] at h; cases h
 
-/-- the evaluator's result on every strict formula within the stack budget, when every pattern compiles -/
-theorem formulaMajor_strict (cfg : Cfg) (L : List Leaf) (ps : List P) (f : Formula)
-    (hs : Strict f = true) (hd : depth f ≤ cfg.stack) (hL : ∀ (k c : Nat), L[k]? ≠ some (Leaf.reError c)) :
+/-- the evaluator's result on every formula evaluated within the stack budget -/
+theorem formulaMajor_eq (cfg : Cfg) (L : List Leaf) (ps : List P) (f : Formula)
+    (hd : depth f ≤ cfg.stack) (hL : ∀ (k c : Nat), L[k]? = some (Leaf.reError c) → regexMapped c = true) :
     formulaMajor L ps cfg.stack f = .ok (majorOfFormula L (ps.map rowOf) f) := by
   unfold formulaMajor majorOfFormula
-  rw [evaluate_eq_sem L ps hL cfg.stack f hs hd]
+  rw [evaluate_eq_sem L ps hL cfg.stack f hd]
   cases sem L (ps.map rowOf) f with
   | none => simp [lift, handled]
   | some v => cases v <;> simp [lift]
+
+/-! ### The exceptions `evaluate` can raise -/
+
+theorem evalSeq_error (ev : Formula → Except Err Val) (vs : List Formula) (e : Err)
+    (h : evalSeq ev vs = .error e) : ∃ g ∈ vs, ev g = .error e := by
+  induction vs with
+  | nil => simp [evalSeq] at h
+  | cons f t ih =>
+    unfold evalSeq at h
+    cases hf : ev f with
+    | error e' =>
+      rw [hf] at h
+      injection h with h
+      exact ⟨f, List.mem_cons_self, by rw [hf, h]⟩
+    | ok v =>
+      rw [hf] at h
+      cases ht : evalSeq ev t with
+      | error e' =>
+        rw [ht] at h
+        injection h with h
+        obtain ⟨g, hg, hge⟩ := ih (by rw [ht, h])
+        exact ⟨g, List.mem_cons_of_mem _ hg, hge⟩
+      | ok vs' => rw [ht] at h; cases h
+
+/-- whatever the formula and the stack budget, the only exceptions `evaluate` can raise are the handled parse error
+    and `RecursionError` (when no pattern makes the regex compiler raise an unmapped exception) -/
+theorem evaluate_error (L : List Leaf) (ps : List P)
+    (hL : ∀ (k c : Nat), L[k]? = some (Leaf.reError c) → regexMapped c = true) :
+    ∀ (fuel : Nat) (f : Formula) (e : Err), evaluate L ps fuel f = .error e → e = .parse ∨ e = .recursion := by
+  intro fuel
+  induction fuel with
+  | zero => intro f e h; simp [evaluate] at h; exact Or.inr h.symm
+  | succ n ih =>
+    intro f e h
+    cases f with
+    | str k =>
+      simp only [evaluate, evalLeaf] at h
+      split at h
+      · cases h
+      · rename_i c hk
+        rw [hL k c hk] at h
+        simp at h; exact Or.inl h.symm
+      · cases h
+      · injection h with h; exact Or.inl h.symm
+      · cases h
+      · injection h with h; exact Or.inl h.symm
+    | const => simp [evaluate] at h; exact Or.inl h.symm
+    | other => simp [evaluate] at h; exact Or.inl h.symm
+    | unaryOther x => simp [evaluate] at h; exact Or.inl h.symm
+    | notOp x =>
+      simp only [evaluate] at h
+      split at h
+      · rename_i e' he
+        injection h with h
+        exact h ▸ ih x e' he
+      · cases h
+      · injection h with h; exact Or.inl h.symm
+    | boolOp isAnd vs =>
+      simp only [evaluate] at h
+      split at h
+      · rename_i e' he
+        injection h with h
+        obtain ⟨g, _, hg⟩ := evalSeq_error _ _ _ he
+        exact h ▸ ih g e' hg
+      · split at h
+        · injection h with h; exact Or.inl h.symm
+        · cases h
+    | call fn args nkw =>
+      simp only [evaluate] at h
+      split at h
+      · injection h with h; exact Or.inl h.symm
+      · injection h with h; exact Or.inl h.symm
+      · split at h
+        · split at h
+          · rename_i e' he
+            injection h with h
+            exact h ▸ ih _ e' he
+          · cases h
+        · injection h with h; exact Or.inl h.symm
 
 /-! ### `update` only reads the rows -/
 
